@@ -2,15 +2,15 @@ SPECIFICATION MCSpec
 CONSTANTS
   MaxAttrHops = 20
   MaxN = 27
-  SizeNs = {1, 2, 3, 8, 20, 23, 24, 25, 26, 27}
-  OpsNs = {1, 2, 3, 5, 20, 21, 22, 24}
+  SizeNs = {1, 2, 3, 8, 23, 24, 25, 26, 27}
+  OpsNs = {1, 2, 3, 5, 19, 20, 21, 22}
   AmtLens = {1, 8}
   CltvLens = {2, 3}
   Metas = {"none", "fillm", "fill", "fillp"}
   Customs = {"none", "two"}
   Blindeds = {0, 2}
   CodeClasses = {"node_temp", "node_perm", "perm", "update", "plain", "recipient"}
-  DLens = {0, 7, 254, 300}
+  DLens = {0, 254, 300}
   EncFwd = 46
   EncRecv = 76
 INVARIANT TypeOK
